@@ -125,6 +125,9 @@ class RetryMonitor(Monitor):
                 self.eof = Proc("eof", t + self.ack_ms, eofs[-1].raw, True)
             else:
                 ok = any(f[0] == "abandon" for f in rec.faults) and rec.post.state == "IDLE" and not eofs
+                if ok and len([f for f in rec.faults if f[2] == POS_ACK_LIMIT]) != 1:
+                    # the abandonment is the whole outcome of this expiry: no second callback for the same fault
+                    w.violate("C04.eof_abandon", f"N={self.N_ack} extra callbacks at the abandonment: {[(f[0], f[2]) for f in rec.faults]}", "")
                 if not ok:
                     w.violate("C04.eof_abandon", f"N={self.N_ack} count={p.count} faults={[f[0] for f in rec.faults]} post={rec.post.step}", "")
                 else:
@@ -266,6 +269,8 @@ class RetryMonitor(Monitor):
                 self.fin = Proc("fin", t + self.ack_ms, fins[-1].raw, True)
             else:
                 ok = any(f[0] == "abandon" for f in rec.faults) and rec.post.state == "IDLE" and not fins
+                if ok and len([f for f in rec.faults if f[2] == POS_ACK_LIMIT]) != 1:
+                    w.violate("C04.fin_abandon", f"N={self.N_ack} extra callbacks at the abandonment: {[(f[0], f[2]) for f in rec.faults]}", "")
                 if not ok:
                     w.violate("C04.fin_abandon", f"N={self.N_ack} count={p.count} faults={[f[0] for f in rec.faults]} post={post} fins={len(fins)}", "")
                 w.probe("C04.receiver_abandoned")
